@@ -500,7 +500,7 @@ package valid
 
 //@ func IsExported
 //@   modifies nothing
-//@   ensures [C04 exported] result == (len(fieldName) > 0 && 65 <= fieldName[0] && fieldName[0] <= 90)
+//@   ensures [C04 C20 exported] result == (len(fieldName) > 0 && 65 <= fieldName[0] && fieldName[0] <= 90)
 
 //@ func NewRule
 //@   modifies nothing
@@ -963,6 +963,12 @@ package valid
 //@   ensures ds.ok(result) && fresh(result)
 
 //@ func (*dumpStruct).HandleDumpStruct
+//@   let tv0 = ite(rv.kind(v) == 22, rv.elem(v), v)
+//@   ensures [C20 dump.null] !rv.valid(tv0) ==> sb.content(d.buf) == old(sb.content(d.buf)) ++ "null"
+//@   ensures [C20 dump.object] rv.valid(tv0) && rv.kind(tv0) == 25 ==> prefixof(old(sb.content(d.buf)) ++ "{", sb.content(d.buf)) && suffixof("}", sb.content(d.buf)) && len(sb.content(d.buf)) >= len(old(sb.content(d.buf))) + 2
+//@   ensures [C20 dump.append] prefixof(old(sb.content(d.buf)), sb.content(d.buf))
+//@   loop#0 invariant prefixof(old(sb.content(d.buf)) ++ "{", sb.content(d.buf))
+//@   loop#0 exhaustive [C20 dump.allfields]
 //@   requires ds.ok(d)
 //@   modifies sb.content(d.buf), sb.nw(d.buf), d.numBytes
 //@   ensures result == d && ds.ok(d)
@@ -970,6 +976,22 @@ package valid
 //@   loop#0 decreases maxIndex - i
 
 //@ func (*dumpStruct).loopHandleKV
+//@   let needName = len(isNeedFileName) == 0 || isNeedFileName[0]
+//@   let key = ite(needName, "\"" ++ s.Name ++ "\":", "")
+//@   let k = rv.kind(tv)
+//@   let isTime = s.Name == "Time" && s.Type == timeReflectType
+//@   ensures [C20 kv.append] prefixof(old(sb.content(d.buf)) ++ key, sb.content(d.buf))
+//@   ensures [C20 kv.string] !isTime && k == 24 ==> sb.content(d.buf) == old(sb.content(d.buf)) ++ key ++ "\"" ++ rv.str(tv) ++ "\""
+//@   ensures [C20 kv.bool] !isTime && k == 1 ==> sb.content(d.buf) == old(sb.content(d.buf)) ++ key ++ ite(rv.bool(tv), "\"true\"", "\"false\"")
+//@   ensures [C20 kv.int] !isTime && isIntKind(k) ==> sb.content(d.buf) == old(sb.content(d.buf)) ++ key ++ decInt(rv.int(tv))
+//@   ensures [C20 kv.uint] !isTime && isUintKind(k) ==> sb.content(d.buf) == old(sb.content(d.buf)) ++ key ++ decInt(rv.uint(tv))
+//@   ensures [C20 kv.float] !isTime && isFloatKind(k) ==> sb.content(d.buf) == old(sb.content(d.buf)) ++ key ++ fmtFloat(rv.float(tv), 102, -1, ite(k == 13, 32, 64))
+//@   ensures [C20 kv.array] !isTime && (k == 23 || k == 17) ==> prefixof(old(sb.content(d.buf)) ++ key ++ "[", sb.content(d.buf)) && suffixof("]", sb.content(d.buf)) && len(sb.content(d.buf)) >= len(old(sb.content(d.buf))) + len(key) + 2
+//@   ensures [C20 kv.map] !isTime && k == 21 ==> prefixof(old(sb.content(d.buf)) ++ key ++ "{", sb.content(d.buf)) && suffixof("}", sb.content(d.buf)) && len(sb.content(d.buf)) >= len(old(sb.content(d.buf))) + len(key) + 2
+//@   loop#0 invariant prefixof(old(sb.content(d.buf)) ++ key ++ "[", sb.content(d.buf))
+//@   loop#0 exhaustive [C20 dump.allelems]
+//@   loop#1 invariant prefixof(old(sb.content(d.buf)) ++ key ++ "{", sb.content(d.buf))
+//@   loop#1 exhaustive [C20 dump.allentries]
 //@   requires ds.ok(d) && rv.valid(tv)
 //@   modifies sb.content(d.buf), sb.nw(d.buf), d.numBytes
 //@   ensures ds.ok(d)
